@@ -108,97 +108,99 @@ fn rpc_flow(lo: usize, hi: usize, inside_signature: bool) {
     std::mem::forget(tw);
 }
 
-//# harness: c11_http_flow_cut_6_12
-//# props: C11
-//# tier: quick
-//# encodes: proto::repl (TCP mode, control block), proto::http::repl, http_parse, smack::Smack::search_next
-//# bounds: stream "GET /t HTTP/1.v CRLF CRLF" (19 bytes; target byte and version digit symbolic) on a fresh flow, cut into two segments at every position 6..11; compared with the unsegmented stream
-//# stubs: proto_init / http_init -> real tables; chrono::Utc::now -> fixed instant
-//# out: three and more segments (per-byte parser: the step lemmas c13_http_step_* give any segmentation once the method has been read)
-//# cover: all cuts examined
-#[kani::proof]
-#[kani::unwind(460)]
-#[kani::stub(crate::proto::proto_init, crate::proto::verif_proto_init_stub)]
-#[kani::stub(crate::proto::http::http_init, crate::proto::http::verif_http_init_stub)]
-#[kani::stub(chrono::Utc::now, crate::verif_util::utc_now_stub)]
-fn c11_http_flow_cut_6_12() {
-    http_flow(6, 12, false)
-}
 
-//# harness: c11_http_flow_cut_12_19
+
+
+
+
+
+//# harness: c11_http_flow_cut_8
 //# props: C11
 //# tier: thorough
+//# timeout: 1200
 //# encodes: proto::repl (TCP mode, control block), proto::http::repl, http_parse, smack::Smack::search_next
-//# bounds: stream "GET /t HTTP/1.v CRLF CRLF" (19 bytes; target byte and version digit symbolic) on a fresh flow, cut into two segments at every position 12..18; compared with the unsegmented stream
-//# stubs: proto_init / http_init -> real tables; chrono::Utc::now -> fixed instant
-//# out: three and more segments (per-byte parser: the step lemmas c13_http_step_* give any segmentation once the method has been read)
+//# bounds: stream "GET /t HTTP/1.v CRLF CRLF" (19 bytes; target byte and version digit symbolic) on a fresh flow, cut into two segments at position 8; compared with the unsegmented stream
+//# stubs: proto_init / http_init -> real tables; chrono::Utc::now and DateTime::to_rfc2822 -> fixed instant / fixed text
+//# out: other cut positions at flow level (parser-level cuts at every position: c11_http_stream_cuts_*)
 //# cover: all cuts examined
 #[kani::proof]
 #[kani::unwind(460)]
 #[kani::stub(crate::proto::proto_init, crate::proto::verif_proto_init_stub)]
 #[kani::stub(crate::proto::http::http_init, crate::proto::http::verif_http_init_stub)]
 #[kani::stub(chrono::Utc::now, crate::verif_util::utc_now_stub)]
-fn c11_http_flow_cut_12_19() {
-    http_flow(12, 19, false)
+#[kani::stub(chrono::DateTime::to_rfc2822, crate::verif_util::rfc2822_stub)]
+fn c11_http_flow_cut_8() {
+    http_flow(8, 9, false)
+}
+
+//# harness: c11_http_flow_cut_17
+//# props: C11
+//# tier: thorough
+//# timeout: 1200
+//# encodes: proto::repl (TCP mode, control block), proto::http::repl, http_parse, smack::Smack::search_next
+//# bounds: stream "GET /t HTTP/1.v CRLF CRLF" (19 bytes; target byte and version digit symbolic) on a fresh flow, cut into two segments at position 17; compared with the unsegmented stream
+//# stubs: proto_init / http_init -> real tables; chrono::Utc::now and DateTime::to_rfc2822 -> fixed instant / fixed text
+//# out: other cut positions at flow level (parser-level cuts at every position: c11_http_stream_cuts_*)
+//# cover: all cuts examined
+#[kani::proof]
+#[kani::unwind(460)]
+#[kani::stub(crate::proto::proto_init, crate::proto::verif_proto_init_stub)]
+#[kani::stub(crate::proto::http::http_init, crate::proto::http::verif_http_init_stub)]
+#[kani::stub(chrono::Utc::now, crate::verif_util::utc_now_stub)]
+#[kani::stub(chrono::DateTime::to_rfc2822, crate::verif_util::rfc2822_stub)]
+fn c11_http_flow_cut_17() {
+    http_flow(17, 18, false)
 }
 
 //# harness: c11_http_flow_cut_inside_signature
 //# props: C11
-//# tier: quick
+//# tier: thorough
+//# timeout: 1200
 //# encodes: proto::repl (TCP mode, control block), proto::http::repl, http_parse, smack::Smack::search_next
-//# bounds: stream "GET /t HTTP/1.v CRLF CRLF" (19 bytes; target byte and version digit symbolic) on a fresh flow, cut into two segments at every position 1..5; compared with the unsegmented stream
-//# stubs: proto_init / http_init -> real tables; chrono::Utc::now -> fixed instant
+//# bounds: stream "GET /t HTTP/1.v CRLF CRLF" (19 bytes; target byte and version digit symbolic) on a fresh flow, cut into two segments at position 2; compared with the unsegmented stream
+//# stubs: proto_init / http_init -> real tables; chrono::Utc::now and DateTime::to_rfc2822 -> fixed instant / fixed text
 //# known: c11.cut_inside_signature.http
-//# out: three and more segments (per-byte parser: the step lemmas c13_http_step_* give any segmentation once the method has been read)
+//# out: other cut positions at flow level (parser-level cuts at every position: c11_http_stream_cuts_*)
 //# cover: all cuts examined
 #[kani::proof]
 #[kani::unwind(460)]
 #[kani::stub(crate::proto::proto_init, crate::proto::verif_proto_init_stub)]
 #[kani::stub(crate::proto::http::http_init, crate::proto::http::verif_http_init_stub)]
 #[kani::stub(chrono::Utc::now, crate::verif_util::utc_now_stub)]
+#[kani::stub(chrono::DateTime::to_rfc2822, crate::verif_util::rfc2822_stub)]
 fn c11_http_flow_cut_inside_signature() {
-    http_flow(1, 6, true)
+    http_flow(2, 3, true)
 }
 
-//# harness: c11_rpc_flow_cut_28_36
-//# props: C11
-//# tier: quick
-//# encodes: proto::repl (TCP mode, control block), proto::rpc::repl_tcp, rpc_parse, build_repl
-//# bounds: 44-byte ONC-RPC NULL call over TCP (XID and program low byte symbolic, XID high byte non-zero) on a fresh flow, cut into two segments at every position 28..35
-//# stubs: proto_init -> real tables
-//# cover: all cuts examined
-#[kani::proof]
-#[kani::unwind(50)]
-#[kani::stub(crate::proto::proto_init, crate::proto::verif_proto_init_stub)]
-fn c11_rpc_flow_cut_28_36() {
-    rpc_flow(28, 36, false)
-}
-
-//# harness: c11_rpc_flow_cut_36_44
+//# harness: c11_rpc_flow_cut_30
 //# props: C11
 //# tier: thorough
+//# timeout: 1200
 //# encodes: proto::repl (TCP mode, control block), proto::rpc::repl_tcp, rpc_parse, build_repl
-//# bounds: 44-byte ONC-RPC NULL call over TCP (XID and program low byte symbolic, XID high byte non-zero) on a fresh flow, cut into two segments at every position 36..43
+//# bounds: 44-byte ONC-RPC NULL call over TCP (XID and program low byte symbolic, XID high byte non-zero) on a fresh flow, cut into two segments at position 30; compared with the unsegmented stream
 //# stubs: proto_init -> real tables
+//# out: other cut positions at flow level (parser-level cuts: c16_rpc_tcp_parse_cut*)
 //# cover: all cuts examined
 #[kani::proof]
 #[kani::unwind(50)]
 #[kani::stub(crate::proto::proto_init, crate::proto::verif_proto_init_stub)]
-fn c11_rpc_flow_cut_36_44() {
-    rpc_flow(36, 44, false)
+fn c11_rpc_flow_cut_30() {
+    rpc_flow(30, 31, false)
 }
 
 //# harness: c11_rpc_flow_cut_inside_signature
 //# props: C11
 //# tier: thorough
+//# timeout: 1200
 //# encodes: proto::repl (TCP mode, control block), proto::rpc::repl_tcp, rpc_parse, build_repl
-//# bounds: 44-byte ONC-RPC NULL call over TCP (XID and program low byte symbolic, XID high byte non-zero) on a fresh flow, cut into two segments at every position 20..27
+//# bounds: 44-byte ONC-RPC NULL call over TCP (XID and program low byte symbolic, XID high byte non-zero) on a fresh flow, cut into two segments at position 12; compared with the unsegmented stream
 //# stubs: proto_init -> real tables
 //# known: c11.cut_inside_signature.rpc
+//# out: other cut positions at flow level (parser-level cuts: c16_rpc_tcp_parse_cut*)
 //# cover: all cuts examined
 #[kani::proof]
 #[kani::unwind(50)]
 #[kani::stub(crate::proto::proto_init, crate::proto::verif_proto_init_stub)]
 fn c11_rpc_flow_cut_inside_signature() {
-    rpc_flow(20, 28, true)
+    rpc_flow(12, 13, true)
 }
